@@ -35,9 +35,16 @@ Definition op_transition (l : list Z) : list Z :=
        pret (ns, own, a, s, tape))
       (fun '(ns, own, a, s, tape) => eoutcome estate (interp (chain (map tfun_of ns) s a own) tape)) l.
 
+Definition eleaves {A} (e : A -> list Z) (r : option (list (res A))) : list Z :=
+  match r with Some rs => 0 :: elist (eres e) rs | None => [1] end.
+Definition op_transition_leaves (l : list Z) : list Z :=
+  run (do ns <- plist (pof tname_of); do own <- pbool; do a <- paction; do s <- pstate; pret (ns, own, a, s))
+      (fun '(ns, own, a, s) => eleaves estate (leaves (chain (map tfun_of ns) s a own))) l.
+
 Definition dispatch (l : list Z) : list Z :=
   match l with
   | 1 :: r => op_geometry r
   | 2 :: r => op_transition r
+  | 3 :: r => op_transition_leaves r
   | _ => undecodable
   end.
